@@ -15,6 +15,7 @@ from .. import config, lib, runner
 
 ENGINES = {
     'E1': 'vf.engines.e1',
+    'EM': 'vf.engines.em',
     'E2': 'vf.engines.e2',
     'E3': 'vf.engines.e3',
     'E4': 'vf.engines.e4',
